@@ -296,6 +296,20 @@ CREATE OR REPLACE MACRO vtl_tp_shift(p vtl_time_period, n INTEGER) AS (
         WHEN 'A' THEN
             vtl_period_to_string({'year': p.year + n,
                 'period_indicator': 'A', 'period_number': 1}::vtl_time_period)
+        -- Days and ISO weeks do not have a fixed number per year (365/366 days, 52/53 weeks):
+        -- shift on the calendar instead of with a constant period limit.
+        WHEN 'D' THEN
+            vtl_period_to_string({
+                'year': YEAR(MAKE_DATE(p.year, 1, 1) + (p.period_number - 1 + n)),
+                'period_indicator': 'D',
+                'period_number': DAYOFYEAR(MAKE_DATE(p.year, 1, 1) + (p.period_number - 1 + n))
+            }::vtl_time_period)
+        WHEN 'W' THEN
+            vtl_period_to_string({
+                'year': ISOYEAR(MAKE_DATE(p.year, 1, 4) + ((p.period_number - 1 + n) * 7)),
+                'period_indicator': 'W',
+                'period_number': WEEKOFYEAR(MAKE_DATE(p.year, 1, 4) + ((p.period_number - 1 + n) * 7))
+            }::vtl_time_period)
         ELSE
             vtl_period_to_string({
                 'year': p.year + CASE
